@@ -15,8 +15,11 @@ ASSUME = ['snapshot = active descendants of the parent when the exiting micro st
 
 
 def run(tier, seed):
+    # plus: compound states with two history states (shallow + deep, two shallow, ...)
+    extra = [([(4, 6, 1), (7, 7, 1)] if tier == 'quick' else [(4, 6, 2), (7, 7, 1)],
+              {'require': 'multihist', 'schemes': ('asc',)})]
     return schemes.run('C06', tier, seed, PLAN[tier], ['history'], {'history'}, RULE, ASSUME,
-                       require='history')
+                       require='history', extra_plans=extra)
 
 
 def replay(data):
